@@ -1412,7 +1412,13 @@ struct array : static_array<T, D, Alloc> {
 	auto assign(It first, It last) -> array& {
 		using std::all_of;
 		using std::next;
-		if(adl_distance(first, last) == this->size()) {
+		bool same_extensions = (adl_distance(first, last) == this->size());
+		if constexpr(D > 1) {  // the rows must have the extensions of the rows of *this as well
+			if(same_extensions && (this->size() != 0)) {
+				same_extensions = (multi::extensions(*first) == (*(this->begin())).extensions());
+			}
+		}
+		if(same_extensions) {
 			static_::ref::assign(first);
 		} else {
 			this->operator=(array(first, last));
